@@ -242,6 +242,38 @@ theorem imposition_perm {n : Nat} {l₁ l₂ : List Opnd} (hp : l₁.Perm l₂) 
   simp only [bind, Except.bind]
   exact foldImp_perm (hp.map _) (conv_wf l₁ hv)
 
+/-- the bounds of the fold ARE the iterated pointwise min of the left / max of the right bounds
+of the converted operands -/
+theorem envelope_pointwise {n : Nat} (x : Opnd) (xs : List Opnd) (hv : ∀ y ∈ x :: xs, Valid n y)
+    (hmix : (x :: xs).all Opnd.isIvl = false) :
+    envelope n (x :: xs) = .ok (.pb ((xs.map (conv n)).foldl envSpec (conv n x))) := by
+  have hw := conv_wf (x :: xs) hv
+  simp only [List.map_cons] at hw
+  have h := (foldlM_env_eq (xs.map (conv n)) (conv n x) (hw _ (by simp)) (fun P hP => hw P (by simp [hP]))).1
+  simp only [envelope, hmix, convertAll_ok (x :: xs) hv, List.map_cons, foldEnv, reduceM, h, bind, Except.bind]
+  rfl
+
+/-- when the operands have a common selection the imposition is the iterated pointwise max of the
+left / min of the right bounds -/
+theorem imposition_pointwise {n : Nat} (x : Opnd) (xs : List Opnd) (hv : ∀ y ∈ x :: xs, Valid n y)
+    (z : List Rat) (hz : ∀ y ∈ x :: xs, Sel (conv n y) z) :
+    imposition n (x :: xs) = .ok ((xs.map (conv n)).foldl impSpec (conv n x)) := by
+  have hw := conv_wf (x :: xs) hv
+  simp only [List.map_cons] at hw
+  have hz' : CommonSel (conv n x :: xs.map (conv n)) z := by
+    intro P hP
+    rw [← List.map_cons] at hP
+    obtain ⟨y, hy, rfl⟩ := List.mem_map.mp hP
+    exact hz y hy
+  obtain ⟨E, e, -, -, -, -, rfl⟩ := foldlM_imp_ok (xs.map (conv n)) (conv n x) (hw _ (by simp))
+    (fun P hP => hw P (by simp [hP])) z hz'
+  simp only [imposition, convertAll_ok (x :: xs) hv, List.map_cons, foldImp, reduceM, e, bind, Except.bind]
+
+/-- ★ `fold_perm_invariant`: both folds, any listing order -/
+theorem fold_perm_invariant {n : Nat} {l₁ l₂ : List Opnd} (hp : l₁.Perm l₂) (hv : ∀ x ∈ l₁, Valid n x) :
+    envelope n l₁ = envelope n l₂ ∧ imposition n l₁ = imposition n l₂ :=
+  ⟨envelope_perm hp hv, imposition_perm hp hv⟩
+
 /-! ## rejected inputs -/
 
 theorem envelope_empty (n : Nat) : envelope n [] = .error .Type := rfl
